@@ -73,6 +73,14 @@ pub fn rand_name(rng: &mut Rng, prefix: &str) -> String {
     s
 }
 pub fn rand_dec(rng: &mut Rng) -> Dec {
+    if rng.chance(1, 12) {
+        // more fractional digits than any customary print width: 7..18 places, and integers beyond 2^32
+        return match rng.below(3) {
+            0 => dec(rng.range(-999_999_999_999, 999_999_999_999), 7 + rng.below(6) as u32),
+            1 => dec(rng.range(1, 999), 7 + rng.below(12) as u32),
+            _ => dec(rng.range(-99_999_999_999_999, 99_999_999_999_999), rng.below(3) as u32),
+        };
+    }
     match rng.below(8) {
         0 => dec(0, 0),
         1 => dec(rng.range(-50, 50), 0),
